@@ -458,12 +458,10 @@ class Device(Unit):
         return False
 
     def status_byte(self):
-        s = self.status & ~0x06
+        s = self.status
         if self.quiescent:
             s |= 0x02
-        if self.short is None:
-            s |= 0x04
-        return s
+        return s & 0xFF
 
     def receive(self, bits, value, t_us):
         if bits != 24:
